@@ -1,5 +1,5 @@
 SPECIFICATION FairSpec
-CONSTANTS Cap = 3  Payload = 4  Variant = "communicate"  Drain = TRUE  CloseAll = TRUE  Timeout = FALSE  Escalate = TRUE  ProgName = "writeread"
+CONSTANTS Cap = 3  Payload = 4  Variant = "communicate"  Drain = TRUE  CloseAll = TRUE  Timeout = FALSE  Escalate = TRUE  DtorSig = "KILL"  ProgName = "writeread"
 CONSTANT Prog <- MCProg
 INVARIANTS OutputComplete StatusExact Reaped AllFdsClosed StdinDelivered NoThrowUnlessEpipe
 PROPERTY Termination
